@@ -198,9 +198,11 @@ def conditions(tier, seed, active):
             out.append(dict(id="history1/d%d/%s" % (d, ck), module=__name__, factory="history", params=dict(d=d, n=1, cache_kind=ck),
                             timeout=600, tags=["clean", "fault-surfaced"], witness=["clean", "fault-surfaced"] if d == 7 else []))
             for fk in range(len(KEYS)):
-                if quick and not (d == 7 or (d == 4 and ck == "default")) :
+                if quick and not (d == 7 or (d == 4 and ck == "default")):
                     continue
-                if quick and ck != "default" and fk % 2:
+                if quick and ck != "default" and fk % 3:
+                    continue
+                if quick and d == 4 and fk % 2:
                     continue
                 out.append(dict(id="history2/d%d/%s/first%d" % (d, ck, fk), module=__name__, factory="cube",
                                 params=dict(d=d, n=2, cache_kind=ck, first_key=fk), timeout=1200, tags=["clean"], witness=[]))
